@@ -391,7 +391,8 @@ Lemma downstream_post nrows ncols code flowdir nval idxup idxdown :
         (fun c out => Zlen out = nval /\ (c = 0 \/ c = 1) /\
            (c = 0 -> forall j, 0 <= j < nval ->
               0 <= nth (Z.to_nat j) idxup 0 < nrows * ncols /\
-              dgood (nrows * ncols) (nth (Z.to_nat j) out 0))).
+              dgood (nrows * ncols) (nth (Z.to_nat j) out 0)) /\
+           (c = 1 -> exists j, 0 <= j < nval /\ ~ (0 <= nth (Z.to_nat j) idxup 0 < nrows * ncols))).
 Proof.
   intros Hr Hc Hg Hcd Hfd Hup Hdn. unfold downstream.
   set (ntot := nrows * ncols) in *.
@@ -403,13 +404,15 @@ Proof.
   eapply post3_weaken.
   { apply (forZ_post3 Inv (fun _ => False)
              (fun c out => Zlen out = nval /\ (c = 0 \/ c = 1) /\ (c = 0 -> forall j, 0 <= j < nval ->
-                0 <= nth (Z.to_nat j) idxup 0 < ntot /\ dgood ntot (nth (Z.to_nat j) out 0))));
+                0 <= nth (Z.to_nat j) idxup 0 < ntot /\ dgood ntot (nth (Z.to_nat j) out 0)) /\
+                (c = 1 -> exists j, 0 <= j < nval /\ ~ (0 <= nth (Z.to_nat j) idxup 0 < ntot))));
       [lia|split; [auto|intros; lia]|].
     intros i out Hi (I1 & I2).
     acc3. set (cell := nth (Z.to_nat i) idxup 0).
     rewrite chk64_ok' by (unfold MAX64, ntot in *; nia). cbn [bindr].
     destruct ((cell <? 0) || (ntot <=? cell)) eqn:E.
-    { cbn. split; auto. split; auto. intros; discriminate. }
+    { cbn. split; auto. split; auto. split; [intros; discriminate|].
+      intros _. exists i. split; [lia|]. fold cell. apply orb_true_iff in E. destruct E; zb; lia. }
     zb.
     destruct (nb_local_good ntot) as (L1 & L2).
     eapply post3_call; [apply neighbours_post; auto|].
@@ -442,7 +445,7 @@ Proof.
         intros j Hj. destruct (Z.eq_dec j i) as [->|Hne]; [split; [fold cell; lia|auto]|apply J3; lia].
       + intros ? [].
       + intros ? ? []. }
-  - cbn. intros out [(I1 & I2)|[]]. split; auto.
+  - cbn. intros out [(I1 & I2)|[]]. split; auto. split; auto. split; auto. intros; discriminate.
   - intros ? [].
   - auto.
 Qed.
@@ -459,13 +462,16 @@ Lemma down1_post nrows ncols code flowdir c d0 :
   Zlen code = 9 -> Zlen flowdir = nrows * ncols ->
   post3 (down1 nrows ncols code flowdir c d0)
         (fun r => (fst r = 0 \/ fst r = 1) /\
-                  (fst r = 0 -> 0 <= c < nrows * ncols /\ dgood (nrows * ncols) (snd r)))
+                  (fst r = 0 -> 0 <= c < nrows * ncols /\ dgood (nrows * ncols) (snd r)) /\
+                  (0 <= c < nrows * ncols -> fst r = 0))
         (fun _ => False) (fun _ _ => False).
 Proof.
   intros. unfold down1.
   eapply post3_call; [apply downstream_post; auto; reflexivity|].
-  cbn. intros rc out (L & B & P). split; auto.
-  intros E. specialize (P E 0 ltac:(lia)). cbn in P. auto.
+  cbn. intros rc out (L & B & P & P1). split; auto. split.
+  - intros E. specialize (P E 0 ltac:(lia)). cbn in P. auto.
+  - intros Hv. destruct B as [B|B]; auto. destruct (P1 B) as (j & Hj & Hn).
+    assert (j = 0) by lia. subst j. cbn in Hn. contradiction.
 Qed.
 
 (* ================================================================== *)
@@ -501,7 +507,7 @@ Proof.
       { apply (for_loop_inv3 (fun s => 0 <= ac_up s < ntot) (fun _ _ => True)); [cbn; lia|].
         intros j s Hs.
         eapply post3_call_next; [apply down1_post; auto; lia|].
-        { cbn beta. intros [rc d] (B1 & B2). cbn [fst snd] in *.
+        { cbn beta. intros [rc d] (B1 & B2 & B3). cbn [fst snd] in *.
           destruct (0 <? rc) eqn:E1; [exact I|]. zb.
           assert (rc = 0) by lia. destruct (B2 H) as (_ & G).
           destruct (d <? 0) eqn:E2; zb.
@@ -533,7 +539,7 @@ Proof.
     intros i sv Hi I1.
     destruct (zmod_guard true i nprint ltac:(auto)) as (v & Ev). rewrite Ev. cbn [bindr].
     eapply post3_call_next; [apply down1_post; auto; lia|].
-    cbn beta. intros [rc d] (B1 & B2). cbn [fst snd] in *.
+    cbn beta. intros [rc d] (B1 & B2 & B3). cbn [fst snd] in *.
     { destruct (0 <? rc) eqn:E1; [exact I|]. zb.
       assert (rc = 0) by lia. destruct (B2 H) as (_ & G).
       destruct (0 <=? d) eqn:E2; zb; [|cbn; auto].
